@@ -32,14 +32,12 @@ def reserved32 (bs : List Nat) (k : Nat) : Nat :=
 /-- Control skeleton of the FAT12 branch (it does not depend on the data):
     `n` = table bytes, `total = int(n // 1.5)`; result `(parsed, len)`:
     entries `0..parsed-1` were assigned, the list has `len` cells at the end.
-    `curr`/`offset` are floats in the source (`1.5k`, `1.5k+1.5`); here doubled. -/
+    `curr` is a float in the source (`1.5k`); here doubled. -/
 def parse12Ctl (n total : Nat) : (fuel : Nat) → (k : Nat) → Nat × Nat
   | 0, k => (k, total)
   | f + 1, k =>
     if 3 * k < 2 * n then                       -- while curr < fat_size
       if total ≤ k then (k, total)              -- self.fat[cluster] = …  → IndexError → break
-      else if (3 * k + 4) / 2 = n - 1 then      -- math.ceil(offset) == fat_size - 1
-        (k + 1, total - 1)                      -- del self.fat[-1]; break
       else parse12Ctl n total f (k + 1)
     else (k, total)
 
@@ -76,8 +74,15 @@ def parse12 (bs : List Nat) : Except ParseErr (List Nat) :=
 /-- `_parse_fat`, FAT16 (table length even, as `BytsPerSec` is). -/
 def parse16 (bs : List Nat) : List Nat := dec16 bs
 
-/-- `_parse_fat`, FAT32: reserved nibble masked away. -/
+/-- the reserved bits (`& 0xF0000000`) of every 4-byte group -/
+def res32 : List Nat → List Nat
+  | _ :: _ :: _ :: b3 :: rest => (b3 / 16 % 16) * 268435456 :: res32 rest
+  | _ => []
+
+/-- `_parse_fat`, FAT32: entries masked to 28 bits; the reserved bits are kept
+    aside in `_fat32_reserved_bits`. -/
 def parse32 (bs : List Nat) : List Nat := dec32 bs
+def parse32Reserved (bs : List Nat) : List Nat := res32 bs
 
 /-! ## model of `__bytes__` -/
 
@@ -94,6 +99,15 @@ def ser16 : List Nat → List Nat
 def ser32 : List Nat → List Nat
   | [] => []
   | e :: es => e % 256 :: e / 256 % 256 :: e / 65536 % 256 :: e / 16777216 % 256 :: ser32 es
+
+def orList : List Nat → List Nat → List Nat
+  | e :: es, r :: rs => (e ||| r) :: orList es rs
+  | _, _ => []
+
+/-- FAT32 `__bytes__`: the reserved bits read at mount are OR-ed back when the
+    two lists have the same length (they do unless `fat` was replaced wholesale, as `mkfs` does). -/
+def ser32r (es rs : List Nat) : List Nat :=
+  if rs.length = es.length then ser32 (orList es rs) else ser32 es
 
 /-- `struct.pack` accepts the table (`<H`: < 65536 and, for FAT12, the odd-entry
     bytes `< 256`, i.e. entries `< 4096`; an even last entry may use 16 bits). -/
